@@ -68,11 +68,14 @@ def check(rep, ctx):
             rep.note(f"{r['site']}: read in a function nothing refers to (dead code), not on a decode path")
             continue
         ok = st_ is not None and not any("unchecked-used" in x or "size=None" in x for x in st_) and r["method"] == "read"
+        if ok and not any(x.endswith(";checked") for x in st_):
+            # reached, but on no explored path was its length established (the paths that use the bytes were not followed to the end)
+            st_, ok = None, False
         if st_ is None and r["method"] == "read" and scan.result_is_tested(ctx, r):
             # the function does test what it read, the path analysis just cannot follow it: a limit, not a verdict
             unreached.append(f"{r['site']}: `{r['stmt']}` is tested locally but was not reached by the path analysis")
             continue
-        why = ("is never reached by the path analysis of any reader and its result is never tested" if st_ is None
+        why = ("has its length established on no path the analysis followed, and the function never tests what it read" if st_ is None
                else f"uses {r['method']}()" if r["method"] != "read" else f"is used unchecked ({sorted(st_)})")
         rep.check(R_S, ok, construct=r["function"], stmt=r["stmt"], message=f"the read `{r['stmt']}` {why}: a short result is not turned into "
                   f"BufferUnderflow", file=r["file"], line=r["line"])
